@@ -50,6 +50,10 @@ def run(idx, rep, tier):
         rep.check(okr, "R2", f"{fi.file}::{fi.qual} reads collecting", f"`{unparse(n)}`: only the generator's unmatched step may depend on whether the caller is collect(); "
                   "anything else makes collect(), next() and fast_forward() different runs", K.where(fi, n))
     rep.floor("R2", 1, "reads of collecting")
+    # a csvpath created by a CsvPaths gets its own copy of the cached headers: an in-place header edit (append()) in the collect() run
+    # must not be visible to the later next()/fast_forward() runs of the same file
+    from . import c08
+    c08.copies(idx, rep, "R6")
     # whether unmatched lines are kept at all is the unmatched-mode value (the generator table above takes it as an input)
     from . import c15
     c15.mode_value_tables(idx, rep, "R7", classes={"UnmatchedMode"})
@@ -212,8 +216,34 @@ def r6(idx, rep):
     it = Interp(idx, types={"self": "CsvPath"}, unknown_calls="residual")
     ps = it.run_all(fi, args={"line": ["a"]}, store={"self.limit_collection_to": [3], "self._limit_collection_to": [3]})
     rep.check(len(ps) == 1 and ps[0].result[0] == "raise", "R6", f"{fi.file}::CsvPath.limit_collection rejects a missing header", f"{ps[0].result}", K.where(fi, fi.node))
-    # collect stores a shallow copy
+    # collect(): what it returns are copies of exactly the lines next() yields — same cells (a None cell stays None), other list objects
     fc = idx.method("CsvPath", "collect")
-    lp = [n for n in walk_no_nested(fc.node) if isinstance(n, ast.For)][0]
-    src = unparse(lp)
-    rep.check("_[:]" in src or "list(_)" in src or ".copy()" in src, "R6", f"{fc.file}::CsvPath.collect stores a copy of each line", "", K.where(fc, lp))
+    finit = idx.method("ListLineSpooler", "__init__")
+    rep.analysed(fc, idx.method("ListLineSpooler", "append"))
+    yielded = [["10", "frog", None], ["a", "", "c"], []]
+
+    def spooler(i, c, r, a, k):
+        i.types["LS"] = "ListLineSpooler"
+        i.inline |= {"ListLineSpooler.append", "ListLineSpooler.__len__"}
+        kw = dict(k)
+        kw["__pos__"] = list(a)
+        i.call_function(finit, kw, "LS")
+        return Obj("LS")
+
+    it = Interp(idx, types={"self": "CsvPath"}, unknown_calls="residual", inline={"ListLineSpooler.append"},
+                handlers={"self.next": lambda i, c, r, a, k: yielded, "ListLineSpooler": spooler, "super": lambda i, c, r, a, k: Obj("__super__"),
+                          "__super__.__init__": lambda i, c, r, a, k: None})
+    st = K.instance_store(idx, "CsvPath")
+    st.update({"self.scanner": Obj("scanner")})
+    ps = it.run_all(fc, args={"csvpath": None, "nexts": -1, "lines": None}, store=st)
+    bad = None
+    for p in ps:
+        if p.result[0] != "return" or not isinstance(p.result[1], list):
+            bad = bad or f"collect() ends in {p.result}"
+            continue
+        got = p.result[1]
+        if got != yielded:
+            bad = bad or f"next() yields {yielded}, collect() returns {got}: the three methods are the same run, so collect() holds what next() yields, cell for cell"
+        elif any(g is y for g, y in zip(got, yielded)):
+            bad = bad or "collect() keeps the yielded list objects themselves (a later in-place rewrite of the line would change what was collected)"
+    rep.check(bad is None and len(ps) >= 1, "R6", f"{fc.file}::CsvPath.collect stores a copy of each line", bad or "", K.where(fc, fc.node))
